@@ -1,5 +1,5 @@
-CONSTANTS Stride3 = 5
-  Stride4 = 401
+CONSTANTS Stride3 = 3
+  Stride4 = 8009
   MaxLen = 4
 INIT Init
 NEXT Next
